@@ -137,8 +137,10 @@ def targets(tier='quick'):
     R = Registry()
     R.models['MFS.field_eom'] = m_field_eom
     T = []
-    T.append(Target('mf/heun-at-step', 'tempo.MeanFieldTempo._compute_field', scen_compute_field, post_compute_field, R, PROP))
-    T.append(Target('mf/derivative-at-step', 'tempo.MeanFieldTempo._compute_field_derivative', scen_field_derivative, post_field_derivative, R, PROP))
+    rpf = lambda ob: {'func': 'mean_field_shift', 'inputs': {'obligation': ob['name']}}
+    T.append(Target('mf/heun-at-step', 'tempo.MeanFieldTempo._compute_field', scen_compute_field, post_compute_field, R, PROP, replay=rpf))
+    T.append(Target('mf/derivative-at-step', 'tempo.MeanFieldTempo._compute_field_derivative', scen_field_derivative, post_field_derivative, R, PROP,
+                    replay=rpf))
     T.append(lemma_linear_exact())
     return T
 
@@ -222,6 +224,8 @@ def targets(tier='quick'):
         T.append(Target('sysf/field-free-propagators[%s]' % ('integrated' if integ else 'sampled'), 'system.TimeDependentSystemWithField.get_propagators',
                         scen_ff(integ), post_ff, c15.sys_registry(), PROP, invoke=invoke_ff,
                         replay=lambda ob: {'func': 'field_free_reduces_to_tempo', 'inputs': {'obligation': ob['name']}}))
+    from . import wire
+    T.append(wire.LiouvillianTarget(PROP))     # what the Liouvillian of (H, rates, Lindblad operators) is
     # MeanFieldTempo's own step: the system propagators are asked for the CURRENT step with the current field and derivative
     # (the contract of the back end, shared with C14; discharged here too so that this check stands on its own)
     from . import c14
